@@ -282,7 +282,7 @@ private theorem exSx : blockSx exSrc = [.sym "a", .sym "+", .sym "b", .sym "*", 
   have e : PrintData.itoa (-1) = ['-', '1'] := by decide
   have h := atomOfTok_itoa (-1) (by decide) (by decide)
   rw [e] at h
-  simp [blockSx, exSrc, elems, toSexp, tokSexp, expTok, nm, op, neg, Tok.text, Tok.dotted, Sexp.listSx, Sexp.toSx, h]
+  simp [blockSx, exSrc, elems, toSexp, tokSexp, expTok, nm, op, neg, Tok.text, Tok.dotted, Sexp.listSx, Sexp.toSx, Sexp.isComment, h]
   decide
 
 /-- non-vacuity: the text `{a+b*-1}` satisfies every hypothesis of `text_means_stratified_partial` -/
